@@ -14,7 +14,7 @@ RULE = ("every accepted input is (1) passed to compile(tree, '<verif>', mode): T
         "source with start<=end, list fields are lists, required fields present, Store/Del/Load contexts); inputs: Python seeds and corpus statements, "
         "every xonsh statement form, the product xonsh construct x (expression | binding-target | other-target) context, macro/subprocess forms and "
         "their mutants; distinct non-trivial = distinct accepted (mode, text) with >= 2 tokens")
-ASSUMPTIONS = ["CPython's compile() is the validator of ast objects", "AST columns are characters (finding F01e): 'inside the source' is checked in characters"]
+ASSUMPTIONS = ["CPython's compile() is the validator of ast objects", "AST columns count UTF-8 bytes, as in CPython's trees: 'inside the source' is checked in bytes"]
 
 
 def worker_init():
